@@ -231,6 +231,31 @@ print('RESULT', bad[:3])
 assert not bad, 'matrix(buffer) does not reproduce the exporter: %r' % (
     bad[:2],)
 ''', 'assert')
+    if fn == 'create_indexlist':
+        return ('''
+bad = []
+A = matrix(range(12), (3, 4), 'd')
+cases = [matrix([0, 1, 2, 400], (2, 2)), matrix([0, -500], (1, 2)),
+         matrix([0, 12], (2, 1)), [0, 12], [-13], 12, -13,
+         matrix([0, 1, 11, -12], (2, 2))]
+for I in cases:
+    ok_ = all(-12 <= int(e) < 12 for e in (I if not isinstance(I, int)
+                                           else [I]))
+    for op in ('get', 'set'):
+        B = matrix(A)
+        try:
+            if op == 'get':
+                B[I]
+            else:
+                B[I] = 1.0
+            if not ok_:
+                bad.append((op, repr(I)[:40], 'accepted'))
+        except IndexError:
+            if ok_:
+                bad.append((op, repr(I)[:40], 'IndexError'))
+print('RESULT', bad[:5])
+assert not bad, 'index lists: %r' % (bad[:4],)
+''', 'assert')
     if fn == 'matrix_new':
         return ('''
 bad = []
